@@ -154,7 +154,7 @@ def guard_dnf(guards):
 
 
 def variant_join_sites(res, body):
-    """join blocks of the frame at which a value was joined from variant constructions and whose discriminant is tested later: {join block: vsum term}"""
+    """join blocks of the frame at which a value was joined from variant constructions and whose discriminant is tested later: {join block: [joined terms]}"""
     out = {}
     for c in res.conds.values():
         site = None
@@ -162,9 +162,13 @@ def variant_join_sites(res, body):
             site, val = c[1][3][1], c[1]
         elif tag(c) == "phi" and len(c) > 4 and c[4] and all(o is not None for o in c[4]) and all(isinstance(a, Lin) and a.is_const() for a in c[3]):
             site, val = c[1], c          # a flag joined from constants (`let give_back = match k { A => true, B => false }`)
+        elif (tag(c) == "discr" and tag(c[1]) == "phi" and len(c[1]) > 4 and c[1][4] and all(o is not None for o in c[1][4])
+              and any(tag(a) == "variant" for a in c[1][3])):
+            # an Option / enum value joined from constructions and other values (`match k { A => Some(p).filter(..), B => None, C => Some(q) }`)
+            site, val = c[1][1], c[1]
         if site is not None and len(site) == 1 and str(site[-1]).startswith(body.name + "@"):
             try:
-                out[int(str(site[-1]).split("@")[-1])] = val
+                out.setdefault(int(str(site[-1]).split("@")[-1]), []).append(val)      # several values can be joined in one block
             except ValueError:
                 pass
     return out
@@ -254,8 +258,28 @@ def block_dnf(ev, res, body, bb, lit=None, cap=48, _memo=None, _back=None, stop=
                 plain = []
                 for cond, rel in edge:
                     v = cond[1] if tag(cond) == "discr" else (cond if tag(cond) == "phi" else None)
-                    if v is not None and tag(v) in ("vsum", "phi") and v in vj.values():
-                        jb = [k for k, s_ in vj.items() if s_ == v][0]
+                    if v is not None and tag(v) in ("vsum", "phi") and any(v in l_ for l_ in vj.values()):
+                        jb = [k for k, l_ in vj.items() if v in l_][0]
+                        if tag(v) == "phi" and tag(cond) == "discr" and not all(isinstance(a, Lin) for a in v[3]):
+                            # per incoming edge: a constructed variant decides the test, any other value is tested itself
+                            pd2 = []
+                            for c in pd:
+                                for a_, o_ in zip(v[3], v[4]):
+                                    if ("via", jb, o_) not in c:
+                                        continue
+                                    if tag(a_) == "variant":
+                                        d_ = ev._variant_discr(a_[1], a_[2])
+                                        if d_ is not None and _rel_sat(rel, d_):
+                                            pd2.append(c)
+                                    else:
+                                        extra = set()
+                                        for f in implied_facts([(("discr", a_), rel)]):
+                                            f2 = lit(f) if lit is not None else f
+                                            if f2 is not None:
+                                                extra.add(f2)
+                                        pd2.append(c | frozenset(extra))
+                            pd = pd2
+                            continue
                         ok_orig = _matching_origins(ev, v, rel)
                         pd = [c for c in pd if any(("via", jb, o) in c for o in ok_orig)]
                     else:
